@@ -146,6 +146,18 @@ def generate(rs: int, tier: str, index: int) -> dict:
                 lit["coefficients"] = [[float(numpy.float32(v)) for v in col] for col in lit["coefficients"]]
         steps.append({"id": 0, "k": "pair", "a": {"poly": a}, "b": b, "swap": swap, "complex": kindc == "complex",
                       "extra_op": ch.below(6), "reach": _reach(ch.sub("r")), "other_options": _other(ch.sub("oo"))})
+        cr = ch.sub("rewrite")
+        if kind != "plain" and cr.chance(0.3):
+            # history: the operands were compared before; then one of them got new coefficient values in place
+            # (same terms, same storage) and the comparison is made again on the very same objects
+            sizes = {w: int(numpy.prod(lit["shape"], dtype=int)) for w, lit in (("a", a), ("b", b["poly"]))}
+            which = "b" if sizes["b"] < sizes["a"] or (sizes["a"] == sizes["b"] and cr.chance(0.5)) else "a"
+            lit = a if which == "a" else b["poly"]
+            cols = [list(col) for col in lit["coefficients"]]
+            cols = [col[1:] + col[:1] for col in cols[::-1]] if cr.chance(0.5) else [col[::-1] for col in cols[1:] + cols[:1]]
+            if cr.chance(0.5) and not str(lit.get("dtype", "")).startswith("u") and kindc == "int" and all(abs(v) < 2**62 for col in cols for v in col):
+                cols = [[-v for v in col] for col in cols]
+            steps[-1]["rewrite"] = {"which": which, "coefficients": cols}
     pols = ALL_POLICIES if tier == "thorough" else ["stable", ch.choice(ALL_POLICIES[1:])]
     return {"property": ID, "run_seed": rs, "tier": tier, "prelude": prelude.gen_prelude(core.Chooser(rs, "prelude")), "policies": pols, "steps": steps}
 
@@ -243,11 +255,46 @@ class Runner:
             self.bump(f"undecided:{exc.reason}")
             return
         left, right = (b, a) if step.get("swap") else (a, b)
-        polys = [x for x in (a, b) if isinstance(x, numpoly.ndpoly)]
+        ref_a, ref_b = a, b
+        if step.get("rewrite"):
+            rw = step["rewrite"]
+            target = a if rw["which"] == "a" else b
+            try:
+                fresh = model.build_value({"poly": dict(step[rw["which"]]["poly"], coefficients=rw["coefficients"])})
+            except core.Undecided as exc:
+                self.bump(f"undecided:{exc.reason}")
+                return
+            if not (isinstance(target, numpoly.ndpoly) and list(fresh.keys) == list(target.keys) and fresh.dtype == target.dtype and fresh.shape == target.shape):
+                self.bump("undecided:rewrite-changes-terms")
+                return
+            with numpoly.global_options(**(step.get("other_options") or {})):
+                for _name, opf, fname in OPS:
+                    if step.get("complex") and _name not in ("eq", "ne"):
+                        continue
+                    try:
+                        opf(left, right)
+                        getattr(numpoly, fname)(left, right)
+                    except Exception:  # noqa: BLE001
+                        pass
+                for fn in ("maximum", "minimum"):
+                    try:
+                        getattr(numpoly, fn)(left, right)
+                    except Exception:  # noqa: BLE001
+                        pass
+            for key in target.keys:
+                target.values[key] = fresh.values[key]
+            self.bump("probe:compared_again_after_in_place_update")
+            # the reference is computed from an object that has no past
+            if rw["which"] == "a":
+                ref_a = fresh
+            else:
+                ref_b = fresh
+        ref_left, ref_right = (ref_b, ref_a) if step.get("swap") else (ref_a, ref_b)
+        polys = [x for x in (ref_a, ref_b) if isinstance(x, numpoly.ndpoly)]
         names = union_names(*polys)
         shape = numpy.broadcast_shapes(_shape(left), _shape(right))
-        el_l = as_elements(left, names, shape)
-        el_r = as_elements(right, names, shape)
+        el_l = as_elements(ref_left, names, shape)
+        el_r = as_elements(ref_right, names, shape)
         same_degree_diff = self._nontrivial(el_l, el_r)
         is_complex = step.get("complex")
         verdicts = {}
@@ -328,8 +375,8 @@ class Runner:
                     self.violate("maxmin-selects", fn, sid, f"returned {type(val).__name__} of shape {_shape(val)}", {})
                     continue
                 vnames = union_names(val, *polys)
-                ll = as_elements(left, vnames, shape)
-                rr = as_elements(right, vnames, shape)
+                ll = as_elements(ref_left, vnames, shape)
+                rr = as_elements(ref_right, vnames, shape)
                 for i, (x, y, v) in enumerate(zip(ll, rr, el_v)):
                     c = model.compare_elements(x, y, g, r)
                     pick = (x if c >= 0 else y) if fn == "maximum" else (x if c <= 0 else y)
@@ -439,8 +486,12 @@ def simplify(plan: dict):
         if step.get("reach") != "direct":
             yield dict(plan, steps=[dict(step, reach="direct")])
         if step["k"] == "pair":
+            if step.get("rewrite"):
+                yield dict(plan, steps=[{k: v for k, v in step.items() if k != "rewrite"}])
             for key in ("a", "b"):
                 v = step[key]
+                if (step.get("rewrite") or {}).get("which") == key:
+                    continue
                 if isinstance(v, dict) and "poly" in v:
                     for lit in model.lit_shrinks(v["poly"]):
                         if key == "a" and isinstance(step["b"], dict) and "poly" not in step["b"] and lit["shape"] != v["poly"]["shape"]:
